@@ -25,6 +25,8 @@ class DruidGenerator(generator.Generator):
     TRANSFORMS = {
         **generator.Generator.TRANSFORMS,
         exp.CurrentTimestamp: lambda *_: "CURRENT_TIMESTAMP",
-        exp.Mod: lambda self, e: self.func("MOD", *e.unnest_operands()),
+        exp.Mod: lambda self, e: self.func(
+            "MOD", *(arg.unnest() if isinstance(arg, exp.Paren) else arg for arg in e.iter_expressions())
+        ),
         exp.Array: lambda self, e: f"ARRAY[{self.expressions(e)}]",
     }
